@@ -34,23 +34,29 @@ def check_case(col, t, only=None):
             S_val[i, i, k] = sv[k][i]
     freq = np.arange(nl) * 0.5
     nSv = "all" if act["n"] == 0 else int(act["n"])
-    for site in (only or ["plot.CMIF_plot", "FDD.plot_CMIF"]):
+    # frequency limits: none, and a window that leaves the peak of the first singular value outside (the curves and their
+    # 0 dB reference do not depend on the window)
+    kmax = int(np.argmax(S_val[0, 0, :]))
+    lim = (freq[kmax + 1] - 0.1, freq[-1] + 0.1) if kmax + 1 < nl - 1 or kmax == 0 else (-0.1, freq[kmax - 1] + 0.1)
+    for site_l in (only or ["plot.CMIF_plot", "FDD.plot_CMIF", "plot.CMIF_plot[freqlim]", "FDD.plot_CMIF[freqlim]"]):
+        site = site_l.replace("[freqlim]", "")
+        kwl = {"freqlim": lim} if site_l.endswith("[freqlim]") else {}
         col.count()
         try:
             if site == "plot.CMIF_plot":
-                fig, ax = plot.CMIF_plot(S_val.copy(), freq.copy(), nSv=nSv)
+                fig, ax = plot.CMIF_plot(S_val.copy(), freq.copy(), nSv=nSv, **kwl)
             else:
                 alg = A.FDD(name="x", nxseg=2 * (nl - 1))
                 alg._set_data(np.zeros((8, n)), fs=2 * freq[-1])
                 alg.result = FDDResult(freq=freq.copy(), Sy=np.zeros((n, n, nl), dtype=complex), S_val=S_val.copy(),
                                        S_vec=np.zeros((n, n, nl), dtype=complex))
-                fig, ax = alg.plot_CMIF(nSv=nSv)
+                fig, ax = alg.plot_CMIF(nSv=nSv, **kwl)
             got = curves(ax)
             plt.close("all")
         except Exception as e:
             plt.close("all")
-            col.violation(f"{site}/raised:{type(e).__name__}", f"{site}(nSv={nSv}) raised {e!r} for {sv}",
-                          {"cmif": True, "transition": t, "site": site})
+            col.violation(f"{site_l}/raised:{type(e).__name__}", f"{site_l}(nSv={nSv}) raised {e!r} for {sv}",
+                          {"cmif": True, "transition": t, "site": site_l})
             continue
         exp = [np.array([[freq[k], 10 * np.log10(c[k][0] / c[k][1])] for k in range(nl)]) for c in out["curves"]]
         bad = None
@@ -65,8 +71,8 @@ def check_case(col, t, only=None):
                     bad = ("level", f"curve {i}: levels {g[:, 1]} expected {e[:, 1]} dB")
                     break
         if bad:
-            col.violation(f"{site}/{bad[0]}", f"{site}(nSv={nSv}): {bad[1]}; singular values {sv}",
-                          {"cmif": True, "transition": t, "site": site})
+            col.violation(f"{site_l}/{bad[0]}", f"{site_l}(nSv={nSv}, {kwl}): {bad[1]}; singular values {sv}",
+                          {"cmif": True, "transition": t, "site": site_l})
     if len({tuple(s) for s in sv}) > 1:
         col.mark_nontrivial(("cmif", sv, act["n"]))
         col.sample({"singular_values": sv, "curves_requested": nSv, "expected_ratio_curves": out["curves"]}, cap=1)
